@@ -1312,6 +1312,7 @@ func runProgram(src string, recs []*probeRec) (out []string) {
 	case <-done:
 		L.Close()
 	case <-hangAfter(120 * time.Second):
+		noteHang()
 		return []string{"X timeout => program"}
 	}
 	return w.out
